@@ -220,8 +220,14 @@ def find_item(t, m, selector, dm=None):
        returns (start, end) offsets (end exclusive)."""
     if dm is None:
         dm = depth_map(t, m)
-    parts = selector.split(':')
-    kind = parts[0]
+    kind = selector.split(':', 1)[0]
+    if kind == 'method':
+        hdr, nm = selector[len('method:'):].rsplit(':', 1)
+        parts = ['method', hdr, nm]
+    elif kind == 'impl':
+        parts = ['impl', selector[len('impl:'):]]
+    else:
+        parts = selector.split(':')
     if kind in ('fn', 'struct', 'enum', 'trait', 'const', 'type', 'static'):
         name = parts[1]
         kw = kind
@@ -257,6 +263,13 @@ def find_item(t, m, selector, dm=None):
         if len(fh) != 1:
             raise LookupError('%s: %d fns match' % (selector, len(fh)))
         return _item_start(t, fh[0]), _item_end(t, m, fh[0])
+    if kind == 'nested':
+        # item at any depth, must be unique in the file: nested:enum:Escape
+        kw, name = parts[1], parts[2]
+        hits = [mm.start() for mm in find_code(t, m, r'\b%s\s+%s\b' % (kw, re.escape(name)))]
+        if len(hits) != 1:
+            raise LookupError('%s: %d matches' % (selector, len(hits)))
+        return _item_start(t, hits[0]), _item_end(t, m, hits[0])
     if kind == 'traitfn':
         ts, te = find_item(t, m, 'trait:' + parts[1], dm)
         fh = []
